@@ -67,16 +67,17 @@ type Task struct {
 
 	// all below: written by the task while it holds the baton or is parking,
 	// read by the controller after synctest.Wait.
-	parkedAt string
-	cond     func() bool
-	condDesc string
-	idleOnly bool
-	deadline time.Duration // simulated time at which a timed wait expires; 0 = none
-	timedOut bool
-	running  atomic.Bool // co-release mode: released in the current round
-	parkSeq  int64
-	done     bool
-	spawned  int
+	parkedAt              string
+	cond                  func() bool
+	condDesc              string
+	idleOnly              bool
+	deadline              time.Duration // simulated time at which a timed wait expires; 0 = none
+	timedOut              bool
+	running               atomic.Bool // co-release mode: released in the current round
+	parkSeq               int64
+	readySeq, readySeqFor int64
+	done                  bool
+	spawned               int
 	// Holding lists descriptions of sim locks held (diagnostics).
 	Holding map[string]int
 	// co-release mode: task-private counters, PRNG and id sequence
@@ -104,21 +105,22 @@ type Sim struct {
 	cur  atomic.Pointer[Task]
 	wake chan struct{}
 
-	start     time.Time
-	Steps     int64
-	Switches  int64
-	Stmts     atomic.Int64
-	hash      uint64
-	events    []Event
-	evPos     int
-	ilHash    uint64 // interleaving signature: sequence of (task, lock site) acquisitions
-	panicInfo atomic.Pointer[string]
-	pctPoints []int64
-	lastTask  *Task
-	stopping  atomic.Bool
-	idSeq     int
-	parkCount int64
-	logMu     sync.Mutex // co-release mode: Log/Probe/Fault/Choose/NextID may be called concurrently
+	start      time.Time
+	Steps      int64
+	Switches   int64
+	Stmts      atomic.Int64
+	hash       uint64
+	events     []Event
+	evPos      int
+	ilHash     uint64 // interleaving signature: sequence of (task, lock site) acquisitions
+	panicInfo  atomic.Pointer[string]
+	pctPoints  []int64
+	lastTask   *Task
+	stopping   atomic.Bool
+	idSeq      int
+	parkCount  int64
+	readyCount int64
+	logMu      sync.Mutex // co-release mode: Log/Probe/Fault/Choose/NextID may be called concurrently
 
 	// Probes are named reach counters ("this rare thing happened").
 	Probes map[string]int64
@@ -590,6 +592,14 @@ func Run(cfg Config, tapes *Tapes, main func()) (*Sim, *Outcome) {
 		parked := append([]*Task(nil), s.parked...)
 		s.mu.Unlock()
 		sort.Slice(parked, func(i, j int) bool { return parked[i].ID < parked[j].ID })
+		// the order in which tasks woken in the same step parked is real-time noise:
+		// (re)number them here, in task-id order, for the FIFO policy
+		for _, t := range parked {
+			if t.readySeq == 0 || t.readySeqFor != t.parkSeq {
+				s.readyCount++
+				t.readySeq, t.readySeqFor = s.readyCount, t.parkSeq
+			}
+		}
 		var elig, idleElig []*Task
 		var nextDeadline time.Duration
 		for _, t := range parked {
@@ -740,7 +750,7 @@ func (s *Sim) pick(elig []*Task) *Task {
 		t = elig[0]
 		if t != s.lastTask {
 			for _, c := range elig[1:] {
-				if c.parkSeq < t.parkSeq {
+				if c.readySeq < t.readySeq {
 					t = c
 				}
 			}
